@@ -38,7 +38,9 @@ def node_term(n) -> str:
 def nexpr(r) -> str:
     """A recipe -> Coq term of type nexpr."""
     if r["k"] == "NIRGraph":
-        ch = F.clist([f"({F.cstr(k)}, {nexpr(c)})" for k, c in r["nodes"].items()])
+        # an alias (the same Python object registered under a second name) has the same content
+        ch = F.clist([f"({F.cstr(k)}, {nexpr(r['nodes'][c['of']] if c['k'] == '__alias__' else c)})"
+                      for k, c in r["nodes"].items()])
         es = F.clist([f"({F.cstr(a)}, {F.cstr(b)})" for a, b in r["edges"]])
         md = F.pval(r["metadata"]) if "metadata" in r else "(VDict [])"
         return f"(NGraph {ch} {es} {md})"
